@@ -17,7 +17,5 @@ CaseOf(m) == LET r == Read(Write(m)) IN
      pred |-> [ok |-> r.ok, atoms |-> r.atoms, inter |-> r.inter], rgpred |-> GraphJson(ReadResGraph(r)),
      law |-> RoundTrip(m), rglaw |-> ResGraphLaw(m)]
 ExportInv == pc = "start" => PrintT(<<"CASE", ToJson(CaseOf(mol))>>)
-\* only the initial states (one per molecule)
-XSpec == Init /\ [][FALSE]_vars
 CountInv == pc = "start" => TRUE
 =============================================================================
